@@ -323,6 +323,7 @@ package agent
 //@   modifies elems(values), cstate(boundrecv(rkr(this)))
 //@   ensures[C09] forall j :: outside(values, j) ==> rawat(values, j) == old(rawat(values, j))
 //@   ensures[C09] forall x U :: cnt(view(values), 0, N, x) == cnt(V0, 0, N, x)
+//@   ensures[C09] rpre(rkr(this)) ==> ordered(rkr(this), view(values), 0, N)
 //@ iface SorterLike.ReverseValues
 //@   nopanic
 //@   let n := len(values)
